@@ -97,6 +97,11 @@ pub struct ClientPlan {
     pub max_delay_ms: u32,
     pub delay_pct: u8,
     pub label: String,
+    /// Caller-side cancellation: the future of call number `.0` is dropped after `.1` virtual
+    /// milliseconds if it has not returned by then (a caller's own time-out, a `select!`, a task
+    /// abort). What the cancelled call left behind is not judged; the calls after it are.
+    #[serde(default)]
+    pub cancel_after: Vec<(u16, u64)>,
 }
 
 impl ClientPlan {
@@ -139,6 +144,7 @@ impl ClientPlan {
             max_delay_ms: 0,
             delay_pct: 0,
             label: String::new(),
+            cancel_after: vec![],
         }
     }
 }
@@ -504,6 +510,26 @@ pub fn execute(plan: &ClientPlan) -> ClientRun {
                         OpSpec::Configure { .. } => feig.configure().await.map(|_| OkVal::Unit),
                     }
                 };
+                let limit = plan.cancel_after.iter().find(|(k, _)| *k as usize == i).map(|(_, ms)| Duration::from_millis(*ms));
+                if let Some(d) = limit {
+                    // the caller gives the call up after `d`: its future is dropped where it stands
+                    let r = guarded_async(tokio::time::timeout(d, fut)).await;
+                    match r {
+                        Ok(Ok(Ok(v))) => record(i as i32, op.name(), OpResult::Ok(v), from),
+                        Ok(Ok(Err(e))) => record(i as i32, op.name(), classify(&e), from),
+                        Ok(Err(_)) => {
+                            log.lock().unwrap().note(format!("call {i} cancelled by the caller after {} ms", d.as_millis()));
+                            record(i as i32, op.name(), OpResult::Err { kind: ErrKind::Other, text: "cancelled by the caller".into(), debug: String::new() }, from);
+                        }
+                        Err((loc, msg)) => {
+                            record(i as i32, op.name(), OpResult::Panic { loc, msg }, from);
+                            *aborted.lock().unwrap() = true;
+                            std::mem::forget(feig);
+                            return;
+                        }
+                    }
+                    continue;
+                }
                 let r = guarded_async(tokio::time::timeout(WATCHDOG, fut)).await;
                 match r {
                     Ok(Ok(Ok(v))) => record(i as i32, op.name(), OpResult::Ok(v), from),
